@@ -46,52 +46,50 @@ struct Out {
     executions: u64,
 }
 
-fn tags_for(method: &str, kind: &str, var: Var, entry: &str, nfb: u32) -> Vec<&'static str> {
-    let mut t = vec![match (method, kind) {
+fn method_prop(method: &str, kind: &str) -> &'static str {
+    match (method, kind) {
         ("ov", _) => "C01",
         ("find", _) => "C02",
         ("nosuf", _) => "C05",
         ("lm", "LL") => "C03",
         _ => "C04",
-    }];
-    t.push("C06");
-    t.push("C07");
-    t.push("C14");
-    if var == Var::C {
-        t.push("C08");
     }
-    if entry == "iter" {
-        t.push("C12");
-    }
-    if nfb != 16 {
-        t.push("C11");
-    }
-    t
 }
 
+type Ms = Vec<(i64, i64, String)>;
+
+/// One behaviour under every label map.  Absolute comparisons (against the results the
+/// specification computed) decide C01-C06, C13, C15; the relational properties compare the real
+/// code with itself: C08 char-wise vs byte-wise (in label space), C09 restored vs original,
+/// C11 other num_free_blocks vs default, C12 iterator entry vs slice entry, C14 second run vs first.
 fn replay_search(idx: u64, b: &Value, prop: &str, out: &mut Out) {
     let kind_s = b["kind"].as_str().unwrap();
     let kind = Kind::parse(kind_s);
     let pats: Vec<Vec<u32>> = b["pats"].as_array().unwrap().iter().map(seq_of).collect();
     let hay = seq_of(&b["hay"]);
-    for (mi, lm) in MAPS.iter().enumerate() {
-        if prop == "C08" && lm.var != Var::C {
-            continue;
+    let with_values = idx % 2 == 1;
+    let nfb: u32 = if (idx / 2) % 2 == 0 { 1 } else { 16 };
+    let valstr = |i: u64| -> String {
+        if with_values {
+            VALS[(i as usize - 1) % VALS.len()].to_string()
+        } else {
+            (i - 1).to_string()
         }
+    };
+    // results of the slice entry per map and method, in label space, for C08
+    let mut label_space: Vec<HashMap<String, Option<Ms>>> = vec![];
+    for lm in MAPS.iter() {
+        let mut this_map: HashMap<String, Option<Ms>> = HashMap::new();
         let cpats: Vec<Pat> = pats.iter().map(|p| p.iter().map(|&l| lm.map[l as usize]).collect()).collect();
         let chay: Vec<u32> = hay.iter().map(|&l| lm.map[l as usize]).collect();
-        // byte offset of each label position
         let mut off = vec![0usize];
-        for &l in &chay {
-            off.push(off.last().unwrap() + width(lm.var, l));
-        }
         let mut hbytes = vec![];
         for &l in &chay {
+            off.push(off.last().unwrap() + width(lm.var, l));
             hbytes.extend_from_slice(&pat_bytes(lm.var, &vec![l]));
         }
         let hbytes = Rc::new(hbytes);
-        let with_values = (idx as usize + mi) % 2 == 1;
-        let nfb = if (idx as usize / 2 + mi) % 2 == 0 { 1 } else { 16 };
+        let to_label = |p: i64| -> Option<i64> { off.iter().position(|&o| o as i64 == p).map(|x| x as i64) };
         let spec = BuildSpec {
             var: lm.var,
             kind,
@@ -105,8 +103,9 @@ fn replay_search(idx: u64, b: &Value, prop: &str, out: &mut Out) {
         let (outcome, pma) = build::<u64>(&spec, &vals);
         let cfg = json!({"map": lm.name, "var": lm.var.s(), "entry": spec.entry, "nfb": nfb});
         let Some(pma) = pma else {
-            out.mismatches.push(json!({"idx": idx, "tags": ["C10", "C01", "C02", "C03", "C04", "C05", "C06", "C08", "C11", "C12", "C15"],
+            out.mismatches.push(json!({"idx": idx, "tags": ["C10", "C01", "C02", "C03", "C04", "C05", "C06", "C08", "C09", "C11", "C12", "C13", "C14", "C15"],
                 "what": "build of a valid collection failed", "cfg": cfg, "got": outcome, "behaviour": b}));
+            label_space.push(this_map);
             continue;
         };
         let ns = b["num_states"].as_u64().unwrap() as usize;
@@ -114,22 +113,22 @@ fn replay_search(idx: u64, b: &Value, prop: &str, out: &mut Out) {
             out.mismatches.push(json!({"idx": idx, "tags": ["C15"], "what": "num_states", "cfg": cfg,
                 "expected": ns, "got": pma.num_states(), "behaviour": b}));
         }
-        let valstr = |i: u64| -> String {
-            if with_values {
-                VALS[(i as usize - 1) % VALS.len()].to_string()
-            } else {
-                (i - 1).to_string()
-            }
-        };
-        // second automaton for C09/C14 style checks: a serialisation round trip
         let restored = if prop == "C09" {
             let bytes = pma.serialize();
             Some(Pma::<u64>::deserialize(lm.var, &bytes).0)
         } else {
             None
         };
+        let other_nfb = if prop == "C11" {
+            let spec2 = BuildSpec { nfb: if nfb == 16 { 2 } else { 16 }, ..spec.clone() };
+            out.executions += 1;
+            build::<u64>(&spec2, &vals).1
+        } else {
+            None
+        };
+        let cap = (hbytes.len() + 1) * 64 + 16;
         for method in kind.methods() {
-            let exp: Vec<(i64, i64, String)> = b["res"][*method]
+            let exp: Ms = b["res"][*method]
                 .as_array()
                 .unwrap()
                 .iter()
@@ -142,47 +141,103 @@ fn replay_search(idx: u64, b: &Value, prop: &str, out: &mut Out) {
                     )
                 })
                 .collect();
-            for entry in ["slice", "iter"] {
-                if entry == "iter" && *method == "lm" {
-                    continue;
+            // ---- slice entry: absolute comparison ------------------------------------------
+            out.executions += 1;
+            let (ms, _pulled, probes, hops, capped) = pma.search_all(method, "slice", &hbytes, cap);
+            let got: Ms = ms.iter().map(|m| (m.s, m.e, m.v.clone())).collect();
+            let ls: Option<Ms> = got
+                .iter()
+                .map(|(s, e, v)| Some((to_label(*s)?, to_label(*e)?, v.clone())))
+                .collect();
+            this_map.insert((*method).to_string(), ls);
+            if got != exp || capped {
+                let spans_ok = got.len() == exp.len() && got.iter().zip(exp.iter()).all(|(g, e)| g.0 == e.0 && g.1 == e.1);
+                let mut tags = vec![method_prop(method, kind_s)];
+                if spans_ok {
+                    tags = vec!["C06"];
                 }
-                let targets: Vec<(&Pma<u64>, bool)> = match &restored {
-                    Some(r) => vec![(&pma, false), (r, true)],
-                    None => vec![(&pma, false)],
+                if capped {
+                    tags.push("C13");
+                }
+                out.mismatches.push(json!({"idx": idx, "tags": tags, "what": "search result",
+                    "cfg": cfg, "method": method, "entry": "slice",
+                    "expected": exp, "got": got, "capped": capped, "behaviour": b}));
+            }
+            if kind == Kind::Std {
+                let n = hbytes.len() as u64;
+                let linear = probes <= 2 * n && hops <= n && ms.iter().all(|m| m.probes <= 2 * m.e as u64);
+                if !linear {
+                    out.mismatches.push(json!({"idx": idx, "tags": ["C13"], "what": "2n bound",
+                        "cfg": cfg, "method": method, "probes": probes, "hops": hops, "n": n,
+                        "behaviour": b}));
+                }
+            }
+            // ---- C14: a second run returns what the first returned ---------------------------
+            if prop == "C14" {
+                out.executions += 1;
+                let (ms2, ..) = pma.search_all(method, "slice", &hbytes, cap);
+                let got2: Ms = ms2.iter().map(|m| (m.s, m.e, m.v.clone())).collect();
+                if got2 != got {
+                    out.mismatches.push(json!({"idx": idx, "tags": ["C14"], "what": "repeated search differs",
+                        "cfg": cfg, "method": method, "first": got, "second": got2, "behaviour": b}));
+                }
+            }
+            // ---- C12: iterator entry = slice entry, lazily -----------------------------------
+            if *method != "lm" {
+                out.executions += 1;
+                let (msi, pulled, ..) = pma.search_all(method, "iter", &hbytes, cap);
+                let goti: Ms = msi.iter().map(|m| (m.s, m.e, m.v.clone())).collect();
+                if goti != got {
+                    out.mismatches.push(json!({"idx": idx, "tags": ["C12"], "what": "iterator entry differs from slice entry",
+                        "cfg": cfg, "method": method, "slice": got, "iter": goti, "behaviour": b}));
+                }
+                let lazy = msi.iter().all(|m| m.pulled == m.e) && pulled == hbytes.len() as i64;
+                if !lazy {
+                    out.mismatches.push(json!({"idx": idx, "tags": ["C12"], "what": "laziness",
+                        "cfg": cfg, "method": method,
+                        "got": msi.iter().map(|m| json!([m.e, m.pulled])).collect::<Vec<_>>(),
+                        "final_pulled": pulled, "behaviour": b}));
+                }
+            }
+            // ---- C09: the restored automaton answers like the original ------------------------
+            if let Some(r) = &restored {
+                out.executions += 1;
+                let (msr, ..) = r.search_all(method, "slice", &hbytes, cap);
+                let gotr: Ms = msr.iter().map(|m| (m.s, m.e, m.v.clone())).collect();
+                if gotr != got {
+                    out.mismatches.push(json!({"idx": idx, "tags": ["C09"], "what": "restored automaton differs",
+                        "cfg": cfg, "method": method, "original": got, "restored": gotr, "behaviour": b}));
+                }
+            }
+            // ---- C11: another num_free_blocks answers like this one ---------------------------
+            if let Some(o) = &other_nfb {
+                out.executions += 1;
+                let (mso, ..) = o.search_all(method, "slice", &hbytes, cap);
+                let goto: Ms = mso.iter().map(|m| (m.s, m.e, m.v.clone())).collect();
+                if goto != got || o.num_states() != pma.num_states() {
+                    out.mismatches.push(json!({"idx": idx, "tags": ["C11"], "what": "num_free_blocks changes results",
+                        "cfg": cfg, "method": method, "this": got, "other": goto, "behaviour": b}));
+                }
+            }
+        }
+        label_space.push(this_map);
+    }
+    // ---- C08: char-wise = byte-wise, offsets on character boundaries ---------------------------
+    for (mi, lm) in MAPS.iter().enumerate() {
+        if lm.var != Var::C {
+            continue;
+        }
+        for method in kind.methods() {
+            let c = label_space[mi].get(*method);
+            let bref = label_space[0].get(*method);
+            if let (Some(c), Some(Some(bref))) = (c, bref) {
+                let ok = match c {
+                    None => false, // an offset inside a character
+                    Some(c) => c == bref,
                 };
-                for (p, is_restored) in targets {
-                    out.executions += 1;
-                    let cap = (hbytes.len() + 1) * 64 + 16;
-                    let (ms, pulled, probes, hops, capped) = p.search_all(method, entry, &hbytes, cap);
-                    let got: Vec<(i64, i64, String)> = ms.iter().map(|m| (m.s, m.e, m.v.clone())).collect();
-                    let mut tags = tags_for(method, kind_s, lm.var, entry, nfb);
-                    if is_restored {
-                        tags.push("C09");
-                    }
-                    if got != exp || capped {
-                        out.mismatches.push(json!({"idx": idx, "tags": tags, "what": "search result",
-                            "cfg": cfg, "method": method, "entry": entry, "restored": is_restored,
-                            "expected": exp, "got": got, "capped": capped, "behaviour": b}));
-                        continue;
-                    }
-                    if entry == "iter" {
-                        let lazy = ms.iter().all(|m| m.pulled == m.e) && pulled == hbytes.len() as i64;
-                        if !lazy {
-                            out.mismatches.push(json!({"idx": idx, "tags": ["C12"], "what": "laziness",
-                                "cfg": cfg, "method": method,
-                                "got": ms.iter().map(|m| json!([m.e, m.pulled])).collect::<Vec<_>>(),
-                                "final_pulled": pulled, "behaviour": b}));
-                        }
-                    }
-                    if kind == Kind::Std {
-                        let n = hbytes.len() as u64;
-                        let linear = probes <= 2 * n && hops <= n && ms.iter().all(|m| m.probes <= 2 * m.e as u64);
-                        if !linear {
-                            out.mismatches.push(json!({"idx": idx, "tags": ["C13"], "what": "2n bound",
-                                "cfg": cfg, "method": method, "probes": probes, "hops": hops, "n": n,
-                                "behaviour": b}));
-                        }
-                    }
+                if !ok {
+                    out.mismatches.push(json!({"idx": idx, "tags": ["C08"], "what": "char-wise differs from byte-wise (label space)",
+                        "map": lm.name, "method": method, "bytewise": bref, "charwise": c, "behaviour": b}));
                 }
             }
         }
